@@ -36,7 +36,11 @@ def _prog_task(task):
     from harness import lib_vpprog as P
 
     try:
-        if task["level"] == "program":
+        if task["level"] == "mixed":
+            from harness import lib_vpmixed as MX
+
+            r = MX.check_mixed(task["case"], task["seed"])
+        elif task["level"] == "program":
             r = P.c15_check_program(task["steps"], task["sel"], task["k"], task["kind"], task["at"], task["exc_id"])
         else:
             r = P.off_check_program(task["steps"], task["sel"], task["seed"])
@@ -108,10 +112,12 @@ def _run(ck: core.Check, pool):
     from harness import lib_vpnodes as N
     from harness import lib_vpprog as P
 
+    from harness import lib_vpsources as S
+
     rng = ck.rng
     L.single_threaded_ort()
     # ---- program-level tasks first (they run in the worker processes while the rest goes on)
-    n_prog = ck.pick(60, 600)
+    n_prog = S.escalate(ck, 60, 600, 3)
     tasks = []
     for _ in range(n_prog):
         steps = P.gen_program(rng, PROGRAM_SIZE)
@@ -128,7 +134,7 @@ def _run(ck: core.Check, pool):
 
         fams = [(LG.gen_legacy_program, t) for t in sorted(LG.TEMPLATES)] + [(DT.gen_dtype_program, t) for t in DT.TEMPLATES]
         for gen, t in fams:
-            for _ in range(ck.pick(1, 8)):
+            for _ in range(S.escalate(ck, 1, 8)):
                 steps = gen(rng, t)
                 sel = rng.choice(["reference", "onnxruntime"])
                 for _ in range(ck.pick(2, 4)):
@@ -138,6 +144,20 @@ def _run(ck: core.Check, pool):
                 tasks.append({"level": "off", "steps": steps, "sel": sel, "seed": rng.randrange(10**6)})
     except Exception as e:  # noqa: BLE001
         ck.broken("oracle", "C15 legacy / dtype program generator", f"{type(e).__name__}: {str(e)[:200]}")
+    # round 7: the BUILD must not depend on whether propagated values exist - mixed-opset programs (older-opset node
+    # adapted next to a v19 / v20 / v21 companion), constant-EXPRESSION operands, user names = the operator's field keys;
+    # built under NONE / REFERENCE / ONNXRUNTIME: same outcome, same nodes, same behaviour
+    try:
+        from harness import lib_vpmixed as MX
+
+        for t in sorted(MX.TEMPLATES):
+            for _ in range(S.escalate(ck, 4, 40)):
+                case = MX.gen_mixed(rng, t)
+                if rng.random() < 0.5:
+                    case["fault"] = rng.choice(["raise", "wrongdtype", "wrongshape", "none", "truncated", "unknown-name", "scalar"])
+                tasks.append({"level": "mixed", "case": case, "seed": rng.randrange(10**6)})
+    except Exception as e:  # noqa: BLE001
+        ck.broken("oracle", "C15 mixed-opset program generator", f"{type(e).__name__}: {str(e)[:200]}")
     # fixed cases: constants spox propagates by itself (no backend): strings as str / UTF-8 bytes, NULs, non-ASCII
     fixed_consts = [
         [{"op": "const", "how": "value_string", "data": "ü", "bytes": True}],
@@ -150,6 +170,13 @@ def _run(ck: core.Check, pool):
             tasks.append({"level": "off", "steps": steps, "sel": sel, "seed": 1})
     pending = pool.map_async(_prog_task, tasks, chunksize=4)
 
+    # ---- translate (tie G): who touches a Var's propagated value (the build path must not)
+    try:
+        from translator import vp_value_readers
+
+        ck.cov["value_readers"] = [list(e) for e in vp_value_readers.generate()]
+    except Exception as e:  # noqa: BLE001
+        ck.broken("translator", "vp_value_readers", f"{type(e).__name__}: {str(e)[:200]}")
     # ---- prove
     ck.lean(["SpoxModel.Props.C15"], audit="SpoxModel.Audit.C15")
     if ck.thorough:
@@ -178,7 +205,13 @@ def _run(ck: core.Check, pool):
         if r.get("infra"):
             pstats["infra"] += 1
             ck.notes.append(f"program case skipped: {r['infra']}"[:200]) if len(ck.notes) < 5 else None
-        if task["level"] == "program":
+        if task["level"] == "mixed":
+            pstats["mixed_opset_builds"] = pstats.get("mixed_opset_builds", 0) + 1
+            pstats["mixed_adapted"] = pstats.get("mixed_adapted", 0) + r.get("stats", {}).get("adapted", 0)
+            if r.get("stats", {}).get("graph_differs"):
+                ck.broken("correspondence", "C15 the emitted nodes / initializers differ between propagation on and off",
+                          f"mixed-opset template {task['case'].get('template')}: values reach the emitted graph")
+        elif task["level"] == "program":
             pstats["fault_runs"] += 1
             pstats["effective_faults"] += int(bool(r.get("effective")))
             pstats["by_kind"][task["kind"]] = pstats["by_kind"].get(task["kind"], 0) + 1
